@@ -1,5 +1,54 @@
-/- Line-protocol handler for C17 (stub until the model exists). -/
-import NoulithModel.Common
+/- Line-protocol handler for C17: `run <fuel> <sexp…>` evaluates a core-language program containing
+`(freeze …)` nodes with the Impl model of freeze (Impl/Freeze.lean wired into the evaluator); the
+second column is the same program with every `freeze e` replaced by `e` (the property's reference:
+freezing preserves meaning). -/
+import NoulithModel.Driver.CoreSexp
+
 namespace Noulith.DriverC17
-def handle (_args : List String) : String := "bad-op"
+open Noulith Noulith.Core
+
+def render (r : Res × State) : String :=
+  let outText := String.join (r.2.out.reverse.map (· ++ "\n"))
+  canonRes r.1 ++ " out=" ++ hexOfString outText
+
+mutual
+  partial def erase : Expr → Expr
+    | .freeze e => erase e
+    | .list xs => .list (xs.map erase)
+    | .op n a b => .op n (erase a) (erase b)
+    | .index a i => .index (erase a) (erase i)
+    | .call f args => .call (erase f) (args.map erase)
+    | .and_ a b => .and_ (erase a) (erase b)
+    | .or_ a b => .or_ (erase a) (erase b)
+    | .coalesce a b => .coalesce (erase a) (erase b)
+    | .seq xs s => .seq (xs.map erase) s
+    | .ite c t e => .ite (erase c) (erase t) (e.map erase)
+    | .while_ c b => .while_ (erase c) (erase b)
+    | .for_ its body => .for_ (its.map eraseIt) (eraseBody body)
+    | .declare p e => .declare p (erase e)
+    | .assign x e => .assign x (erase e)
+    | .opassign x o e => .opassign x o (erase e)
+    | .lambda ps b => .lambda ps (erase b)
+    | .brk n e => .brk n (e.map erase)
+    | .ret e => .ret (e.map erase)
+    | .throw_ e => .throw_ (erase e)
+    | .try_ b p c => .try_ (erase b) p (erase c)
+    | e => e
+  partial def eraseIt : ForIt → ForIt
+    | .iter k p e => .iter k p (erase e)
+    | .guard e => .guard (erase e)
+  partial def eraseBody : ForBody → ForBody
+    | .exec e => .exec (erase e)
+    | .yield e i => .yield (erase e) (i.map erase)
+    | .yieldItem k v i => .yieldItem (erase k) (erase v) (i.map erase)
+end
+
+def handle (args : List String) : String :=
+  match args with
+  | "run" :: fuel :: rest =>
+    match fuel.toNat?, readExpr rest with
+    | some f, some e => render (runProgram f e) ++ "\t" ++ render (runProgram f (erase e))
+    | _, _ => "bad-op"
+  | _ => "bad-op"
+
 end Noulith.DriverC17
